@@ -18,7 +18,7 @@ import (
 )
 
 func serverNames() []string {
-	return []string{"server-import-reload-metrics", "server-export-reload", "server-dispose-established", "server-dispose-connect", "server-reconnect-collision"}
+	return []string{"server-import-reload-metrics", "server-export-reload", "server-dispose-established", "server-dispose-connect", "server-reconnect-collision", "server-stop-partial-sessions"}
 }
 
 func init() { speaker.StepTimeout = 3 * time.Second }
@@ -519,6 +519,155 @@ func buildServerScenario(r *round) bool {
 		serverProbes(r, srv)
 		return true
 
+	case "server-stop-partial-sessions":
+		// Sessions that are not (or not completely) up are ended and their peers removed: peers configured with IPv4 and
+		// IPv6 unicast whose neighbor's OPEN leaves out one of the multiprotocol capabilities (Established with a configured
+		// family that was not negotiated), a completely negotiated dual-family peer, passive peers whose connection is in
+		// OpenSent (bio-rd's OPEN sent, the neighbor silent) and an active peer in OpenSent. Every session is ended by an
+		// operator stop, an automatic stop or the neighbor's NOTIFICATION / by nothing, then the peer is disposed (which
+		// hands a stop event to the FSM again: it blocks if the FSM never left the handler of the first one), next to
+		// metrics scrapes; afterwards the peers are configured again and must establish.
+		srv := speaker.NewServer(speaker.ServerConfig{})
+		type target struct {
+			pr    *speaker.Peer
+			s     *speaker.Session
+			estab bool
+		}
+		var tg []*target
+		without := func(o *wire.Open, f wire.Family) *wire.Open {
+			drop := wire.CapMP(f)
+			var caps []wire.Capability
+			for _, c := range o.Caps {
+				if c.Code == drop.Code && string(c.Value) == string(drop.Value) {
+					continue
+				}
+				caps = append(caps, c)
+			}
+			o.Caps = caps
+			return o
+		}
+		for i := 0; i < 3; i++ {
+			pc := speaker.PeerConfig{LocalAS: 65000, PeerAS: 65030 + uint32(i), IPv4: &speaker.Family{}, IPv6: &speaker.Family{}}
+			if i == 1 {
+				pc.PeerAS = 65000
+			}
+			pr, err := srv.AddPeer(pc)
+			if err != nil {
+				panic(err)
+			}
+			s, err := pr.Connect()
+			if err == nil {
+				o := pr.DefaultOpen()
+				if i < 2 {
+					o = without(o, wire.IPv6Unicast)
+				}
+				err = s.Establish(o)
+			}
+			if err != nil {
+				r.note("establish_failed", 1)
+				fmt.Printf("round %d: establish dual-family peer %d: %v\n", r.n, i, err)
+				continue
+			}
+			if i < 2 {
+				r.note("established_with_unnegotiated_family", 1)
+			}
+			tg = append(tg, &target{pr, s, true})
+		}
+		for i := 0; i < 3; i++ {
+			pr, err := srv.AddPeer(speaker.PeerConfig{LocalAS: 65000, PeerAS: 65040 + uint32(i), IPv4: &speaker.Family{}})
+			if err != nil {
+				panic(err)
+			}
+			s, err := pr.Connect()
+			if err == nil {
+				_, err = s.WaitSUTOpen()
+			}
+			if err != nil {
+				r.note("connect_failed", 1)
+				continue
+			}
+			r.note("sessions_in_opensent", 1)
+			tg = append(tg, &target{pr, s, false})
+		}
+		if pr, err := srv.AddPeer(speaker.PeerConfig{LocalAS: 65000, PeerAS: 65049, Active: true, IPv4: &speaker.Family{}}); err == nil {
+			err = server.VerifFSMEvent(srv.B, srv.VRF, pr.Addr, 0, server.ManualStart, speaker.StepTimeout)
+			var s *speaker.Session
+			if err == nil {
+				s, err = pr.DeliverOutgoing()
+			}
+			if err == nil {
+				_, err = s.WaitSUTOpen()
+			}
+			if err != nil {
+				r.note("connect_failed", 1)
+			} else {
+				r.note("sessions_in_opensent", 1)
+				tg = append(tg, &target{pr, s, false})
+			}
+		}
+		var ws []conc.Worker
+		for _, t := range tg {
+			t := t
+			ws = append(ws, conc.Worker{Name: "stopper", Fn: func(rng *rand.Rand) {
+				how := rng.IntN(4)
+				for k := 0; k < rng.IntN(20); k++ {
+					runtime.Gosched()
+				}
+				switch {
+				case how == 0:
+					rg.Op(p, "session ManualStop", func() { t.s.Event(server.ManualStop, speaker.StepTimeout) })
+				case how == 1:
+					rg.Op(p, "session AutomaticStop", func() { t.s.Event(server.AutomaticStop, speaker.StepTimeout) })
+				case how == 2 && t.estab:
+					rg.Op(p, "peer sends NOTIFICATION", func() { t.s.SendNotification(6, 2) })
+				}
+				if t.estab {
+					r.note("established_sessions_ended", 1)
+				} else {
+					r.note("opensent_sessions_ended", 1)
+				}
+				rg.Op(p, "server.DisposePeer", func() { srv.B.DisposePeer(srv.VRF, t.pr.Addr) })
+			}})
+		}
+		ws = append(ws, conc.Worker{Name: "metrics", Fn: func(rng *rand.Rand) {
+			for i := 0; i < 30; i++ {
+				rg.Op(p, "server.Metrics", func() { srv.B.Metrics() })
+				runtime.Gosched()
+			}
+		}})
+		r.workers = ws
+		r.probes = append(r.probes, step{"sessions ended: connections closed", func() {
+			// a session whose peer was disposed is over when bio-rd has closed its connection
+			deadline := time.Now().Add(speaker.StepTimeout)
+			for _, t := range tg {
+				for !t.s.Conn.IsClosed() && time.Now().Before(deadline) {
+					time.Sleep(time.Millisecond)
+				}
+				if t.s.Conn.IsClosed() {
+					r.note("connections_closed_after_dispose", 1)
+				} else {
+					r.note("connections_left_open_after_dispose", 1)
+				}
+			}
+		}})
+		r.probes = append(r.probes, step{"AddPeer again + establish", func() {
+			for _, t := range tg {
+				cfg := t.pr.Cfg
+				cfg.PeerAddr, cfg.Active = t.pr.Addr, false
+				np, err := srv.AddPeer(cfg)
+				if err != nil {
+					r.note("re-add_failed", 1)
+					continue
+				}
+				if _, err := np.EstablishDefault(); err != nil {
+					r.note("re-establish_failed", 1)
+				} else {
+					r.note("re-established", 1)
+				}
+			}
+		}})
+		serverProbes(r, srv)
+		return true
 	case "server-dispose-connect":
 		// DisposePeer while connections of the same peer are at every stage of the handshake and their OPENs arrive,
 		// next to metrics scrapes; afterwards the peer is configured again and must establish.
